@@ -32,8 +32,8 @@ type gheap struct {
 
 func newGHeap(t *tree.Tree) *gheap {
 	h := &gheap{nodeId: map[*tree.Node]int{}, edgeId: map[*tree.Edge]int{}}
-	h.nodes = t.Nodes()
-	h.edges = t.Edges()
+	h.nodes = append([]*tree.Node(nil), t.Nodes()...) // copies: the lists must not change under our feet
+	h.edges = append([]*tree.Edge(nil), t.Edges()...)
 	for i, n := range h.nodes {
 		h.nodeId[n] = i
 	}
@@ -55,6 +55,54 @@ func (h *gheap) eid(e *tree.Edge) string {
 		return strconv.Itoa(i)
 	}
 	return "999999"
+}
+
+// sane: the pointer graph is still a tree on the same nodes (checked without recursion: the α
+// walk and the Newick writer recurse for ever on a graph with a cycle, which kills the process)
+func (h *gheap) sane(t *tree.Tree) bool {
+	for _, n := range h.nodes {
+		if len(n.Neigh()) != len(n.Edges()) {
+			return false
+		}
+		for _, x := range n.Neigh() {
+			if _, ok := h.nodeId[x]; !ok {
+				return false
+			}
+			back := false
+			for _, y := range x.Neigh() {
+				if y == n {
+					back = true
+				}
+			}
+			if !back {
+				return false
+			}
+		}
+	}
+	root := t.Root()
+	if _, ok := h.nodeId[root]; !ok {
+		return false
+	}
+	type item struct{ cur, prev *tree.Node }
+	seen := map[*tree.Node]bool{root: true}
+	todo := []item{{root, nil}}
+	for len(todo) > 0 {
+		it := todo[len(todo)-1]
+		todo = todo[:len(todo)-1]
+		skipped := false
+		for _, x := range it.cur.Neigh() {
+			if x == it.prev && !skipped {
+				skipped = true
+				continue
+			}
+			if seen[x] {
+				return false
+			}
+			seen[x] = true
+			todo = append(todo, item{x, it.cur})
+		}
+	}
+	return len(seen) == len(h.nodes)
 }
 
 // snapshot: nodes "neigh:br" each followed by "/", then "#", then branches "left>right" each followed by "/"
@@ -162,7 +210,11 @@ func doHist(c *core.Ctx, kind string, seed int64, n *core.N) {
 	var steps strings.Builder
 	prevHeap := heap0
 	prevDump := before
+	dead := false // the pointer graph is no longer a tree: nothing more may be called on it
 	call := func(k int, isApply bool) string {
+		if dead {
+			return "dead"
+		}
 		re := kept[k]
 		var out string
 		op := "U"
@@ -172,7 +224,12 @@ func doHist(c *core.Ctx, kind string, seed int64, n *core.N) {
 		} else {
 			out = outcome(re.Undo)
 		}
-		wf, d, _ := look(t)
+		wf, d := "heap-corrupt", ""
+		if h.sane(t) {
+			wf, d, _ = look(t)
+		} else {
+			dead = true
+		}
 		hs := h.snapshot()
 		hcol, dcol := hs, d
 		if hs == prevHeap {
@@ -187,6 +244,36 @@ func doHist(c *core.Ctx, kind string, seed int64, n *core.N) {
 			prevDump = d
 		}
 		return out
+	}
+	// reorder: an edit of the same in-memory tree that re-orders the neighbour slices (the real
+	// SortNeighborsByTips / RotateInternalNodes) while rearrangements are in force (seeded change C03-9:
+	// slice positions remembered by Apply and written to by Undo); record E
+	reorder := func() {
+		if dead {
+			return
+		}
+		kind := "sort"
+		if g.Chance(0.5) {
+			kind = "rotate"
+		}
+		out := outcome(func() error {
+			if kind == "sort" {
+				t.SortNeighborsByTips()
+			} else {
+				t.RotateInternalNodes()
+			}
+			return nil
+		})
+		wf, d, _ := look(t)
+		if out != "ok" {
+			wf = core.Escape(out)
+		}
+		hs := h.snapshot()
+		fmt.Fprintf(&steps, "E;%s;%s;%s;%s|", kind, wf, hs, d)
+		prevHeap = hs
+		if wf == "ok" {
+			prevDump = d
+		}
 	}
 	m := len(kept)
 	var stack []int
@@ -223,6 +310,9 @@ func doHist(c *core.Ctx, kind string, seed int64, n *core.N) {
 					call(k, true) // a second Apply: nothing happens
 				} else if call(k, true) == "ok" {
 					stack = append(stack, k)
+					if g.Chance(0.3) {
+						reorder()
+					}
 				}
 			case x < 8 && len(stack) > 0: // pop
 				k := stack[len(stack)-1]
@@ -268,10 +358,12 @@ func doHist(c *core.Ctx, kind string, seed int64, n *core.N) {
 					// second generation: Rearrange is called again on the tree as it is now (the first
 					// rearrangement in force); the second rearrangement of the pair is one of the new objects
 					var fresh []tree.Rearrangement
-					r.Rearrange(t, func(re tree.Rearrangement) bool {
-						fresh = append(fresh, re)
-						return true
-					})
+					if !dead {
+						r.Rearrange(t, func(re tree.Rearrangement) bool {
+							fresh = append(fresh, re)
+							return true
+						})
+					}
 					var os []string
 					ok := true
 					for _, re := range fresh {
@@ -290,6 +382,9 @@ func doHist(c *core.Ctx, kind string, seed int64, n *core.N) {
 					}
 				}
 				call(k2, true)
+				if g.Chance(0.25) {
+					reorder()
+				}
 				call(k, false)
 				call(k2, false)
 				call(k, false)
